@@ -123,7 +123,8 @@ def create_probability_distribution(
                         merged = merge_mps_tensors(tensor_left, tensor_right)
                         # apply the 2-site jump operator
                         merged = oe.contract("ab, bcd->acd", jump_op, merged)
-                        dp_m = dt * gamma * jumped_state.norm(site)
+                        # weight from the norm of the state *after* the jump operator has been applied
+                        dp_m = dt * gamma * np.linalg.norm(merged) ** 2
                         # split the tensor (always contract singular values right for probabilities)
                         tensor_left_new, tensor_right_new = split_mps_tensor(
                             merged,
@@ -133,8 +134,6 @@ def create_probability_distribution(
                             dynamic=False,
                         )
                         jumped_state.tensors[site], jumped_state.tensors[site + 1] = tensor_left_new, tensor_right_new
-                        # compute the norm at `site`
-
                         dp_m_list[idx] = float(dp_m.real)
 
     # Normalize the probabilities
